@@ -499,6 +499,11 @@ def values_eq(I, x, y):
             return I.run_fn(f, [Ref(ValLoc(x)), Ref(ValLoc(y))])
     if x is UNIT and y is UNIT:
         return True
+    if isinstance(x, Agg) and isinstance(y, Agg) and len(x.fields) == len(y.fields) and x.kind == y.kind:
+        r = True
+        for p_, q_ in zip(x.fields, y.fields):
+            r = I._band(r, values_eq(I, p_, q_))
+        return r
     raise Inconclusive("eq of %r and %r" % (x, y))
 
 
@@ -827,6 +832,11 @@ def _into(I, a, d):
     fb = base_type_name(d["self"])[-1]
     if fb == tb:
         return a[0]
+    if to in ("u16", "u32", "u64", "u128", "usize") and (isinstance(v, int) and not isinstance(v, bool) or (is_sym(v) and not z3.is_bool(v))):
+        wd = {"u16": 16, "u32": 32, "u64": 64, "u128": 128, "usize": 64}[to]
+        if isinstance(v, int):
+            return v
+        return z3.ZeroExt(wd - v.size(), v) if v.size() < wd else v        # lossless widening (From<uN> for uM)
     if to.startswith("[u8;") and hasattr(v, "as_sbytes"):
         return BufObj(to, v.as_sbytes())       # GenericArray<u8, N> -> [u8; N]
     if to.startswith("[u8;") and isinstance(v, (BufObj, BytesRef)):
@@ -1452,6 +1462,21 @@ def _slice_to_vec(I, a, d):
     return mk_vec_u8(as_sbytes(a[0]))
 
 
+def _byte_end(I, v, front):
+    """first()/last() of a byte string: Some(&byte) or None (forks on emptiness when the length is symbolic)."""
+    from ..interp import ByteLoc
+    ln = v.sb.length()
+    if is_sym(ln):
+        if I.w.branch(bv(ln, 64) == 0, "bytes-empty"):
+            return NONE()
+        if not front:
+            raise Inconclusive("last byte of bytes of symbolic length")
+    elif ln == 0:
+        return NONE()
+    idx = 0 if front else ln - 1
+    return SOME(Ref(ByteLoc(v, idx)))
+
+
 @T.path("core::slice::first", "slice::first")
 def _slice_first(I, a, d):
     v = peel(a[0])
@@ -1459,6 +1484,8 @@ def _slice_first(I, a, d):
         return SOME(Ref(ElemLoc(v.items, v.start))) if len(v) else NONE()
     if isinstance(v, VecObj):
         return SOME(Ref(ElemLoc(v.items, 0))) if v.items else NONE()
+    if isinstance(v, (BufObj, BytesRef)):
+        return _byte_end(I, v, True)
     raise Inconclusive("slice::first on %r" % (v,))
 
 
@@ -1469,6 +1496,8 @@ def _slice_last(I, a, d):
         return SOME(Ref(ElemLoc(v.items, v.end - 1))) if len(v) else NONE()
     if isinstance(v, VecObj):
         return SOME(Ref(ElemLoc(v.items, len(v.items) - 1))) if v.items else NONE()
+    if isinstance(v, (BufObj, BytesRef)):
+        return _byte_end(I, v, False)
     raise Inconclusive("slice::last on %r" % (v,))
 
 
@@ -2071,7 +2100,7 @@ def _path_starts_with(I, a, d):
 
 @T.path("std::env::temp_dir")
 def _env_temp_dir(I, a, d):
-    return mk_pathbuf(b"/tmp")
+    return mk_pathbuf(b"/root/systmp")
 
 
 @T.path("std::env::current_dir")
